@@ -133,11 +133,15 @@ def check_config(ctx: Ctx, dtype):
                           f"{[float(v) for v in cos_over_w]}", rp)
 
 
-def check_aligned(ctx: Ctx, dtype):
+def check_aligned(ctx: Ctx, dtype, cond=None):
     rng = ctx.rng
     m = rng.choice([1, 2, 2, 3, 4])
     n = rng.randint(m, m + 3)
     sig = sorted([Fr(rng.randint(2, 24), rng.choice([1, 2, 4])) for _ in range(m)], reverse=True)
+    if cond is not None:
+        m = rng.choice([2, 3])
+        n = rng.randint(m, m + 2)
+        sig = sorted([Fr(1)] + [Fr(1, rng.randint(2, cond // 2)) for _ in range(m - 2)] + [Fr(1, cond)], reverse=True)
     scale = rng.choice([Fr(1), Fr(1, 100), Fr(100)])
     J, V, sigma, W = m_svd(rng, m, n, sigmas=sig, scale=scale)
     vecs = transpose(V)            # eigenvectors of J J^T = columns of V
@@ -247,10 +251,53 @@ def check_wide(ctx: Ctx):
                       f"equal), weights sum to {ws}", {**rp, "aggregator": "IMTLG"})
 
 
+def cast_roundtrip(ctx: Ctx):
+    """aggregators are nn.Modules: moving one through a low-precision dtype and back (`.half().float()`, `.bfloat16().double()`,
+    as happens to every sub-module of a model that is cast) must not change the preference vector it was configured with"""
+    rng = ctx.rng
+    m = rng.choice([2, 3])
+    n = m + rng.choice([0, 1, 2])
+    dtype = rng.choice([torch.float32, torch.float64])
+    g = torch.Generator().manual_seed(rng.randrange(2 ** 31))
+    q, _ = torch.linalg.qr(torch.randn(n, n, generator=g, dtype=torch.float64))
+    J = (torch.diag(torch.tensor([1.0 + 0.5 * i for i in range(m)], dtype=torch.float64)) @ q[:m]).to(dtype)
+    pref = [rng.choice([0.1, 0.23, 0.67, 1.3, 2.9]) for _ in range(m)]          # not representable in half / bfloat16
+    low = rng.choice([torch.float16, torch.bfloat16])
+    for name, cls in (("ConFIG", ConFIG), ("AlignedMTL", AlignedMTL), ("UPGrad", None), ("DualProj", None)):
+        if cls is None:
+            from torchjd.aggregation import DualProj, UPGrad
+            cls = {"UPGrad": UPGrad, "DualProj": DualProj}[name]
+        mk = lambda: cls(pref_vector=torch.tensor(pref, dtype=dtype))      # noqa: E731
+        ref = mk()(J)
+        A = mk().to(low).to(dtype)
+        st, x = run_agg(A, J)
+        ctx.count("cast_roundtrip", name)
+        ctx.case(("cast", name, str(low), str(dtype), tuple(pref)), nontrivial=True)
+        if st != "ok" or not torch.equal(x, ref):
+            ctx.violation(f"{name}(pref_vector={pref}) moved to {low} and back to {dtype} returns "
+                          f"{x.tolist() if st == 'ok' else x} instead of {ref.tolist()}: the configured preference was altered by "
+                          f"casting the module", {"aggregator": name, "pref": pref, "through": str(low), "dtype": str(dtype), "J": J.tolist()})
+            return
+
+
+def default_dtype_float64(ctx: Ctx):
+    """torch.set_default_dtype(torch.float64) (after the library was imported): double-precision matrices of condition number
+    1e3..1e4 are of unambiguous full rank there and the Aligned-MTL conditions must hold"""
+    old = torch.get_default_dtype()
+    torch.set_default_dtype(torch.float64)
+    try:
+        check_aligned(ctx, torch.float64, cond=ctx.rng.choice([2000, 5000, 10000]))
+        ctx.count("default_dtype_float64")
+    finally:
+        torch.set_default_dtype(old)
+
+
 def main(ctx: Ctx):
     ctx.lean_gate()
     for _ in range(8 if ctx.tier == "quick" else 400):
         check_wide(ctx)
+        cast_roundtrip(ctx)
+        default_dtype_float64(ctx)
     n = 250 if ctx.tier == "quick" else 40000
     for i in range(n):
         dtype = torch.float64 if i % 3 else torch.float32
